@@ -27,9 +27,27 @@ def cache_key():
 def cache_root(): return os.path.join(ROOT, ".cache", "numba", cache_key())
 
 
+def source_stamp():
+    """sha of every source file of the package + where it lives: numba's on-disk cache is per file path and per file content, so compiled kernels exist only for this"""
+    out = {"repo": os.path.realpath(REPO)}
+    for dp, dn, fn in sorted(os.walk(os.path.join(REPO, "groupby_lib"))):
+        dn[:] = sorted(d for d in dn if d != "__pycache__")
+        for f in sorted(fn):
+            if f.endswith(".py"): out[os.path.relpath(os.path.join(dp, f), REPO)] = hashlib.sha1(open(os.path.join(dp, f), "rb").read()).hexdigest()[:12]
+    return out
+
+
+def write_warm_stamp():
+    os.makedirs(cache_root(), exist_ok=True); json.dump(source_stamp(), open(os.path.join(cache_root(), "warm_stamp.json"), "w"))
+
+
 def cache_is_cold():
+    """True when (some of) the kernels of the tree under test have to be compiled first: no cache at all, or the tree is not the one the caches were warmed for (another
+    location, or a source file changed - numba then recompiles every kernel of that file in every worker)"""
     d = os.path.join(cache_root(), "r0")
-    return not (os.path.isdir(d) and any(f.endswith(".nbi") for _, _, fs in os.walk(d) for f in fs))
+    if not (os.path.isdir(d) and any(f.endswith(".nbi") for _, _, fs in os.walk(d) for f in fs)): return True
+    try: return json.load(open(os.path.join(cache_root(), "warm_stamp.json"))) != source_stamp()
+    except Exception: return True
 
 
 def hygiene(rank=0):
